@@ -1164,3 +1164,39 @@ func c24SuiteCertRules(c *Ctx) {
 		}
 	}
 }
+
+
+// c05Extras: the RSA-PSS parameters written into the AlgorithmIdentifier are built from the very hash
+// signingParamsForPublicKey returns (the callers digest and sign with the returned one).
+func c05Extras(c *Ctx) {
+	w := c.W
+	curveTableRule(c, "z/x509.signingParamsForPublicKey", "certificate, CSR and CRL signing")
+	fn := w.Fn("z/x509.signingParamsForPublicKey")
+	if fn == nil {
+		c.Undecided("R-PROV", "x509.signingParamsForPublicKey", "anchor", "-", "not found")
+		return
+	}
+	n := 0
+	for _, in := range callsIn(fn, "z/x509.rsaPSSParameters") {
+		cc := callCommon(in)
+		if cc == nil || len(cc.Args) != 1 {
+			continue
+		}
+		n++
+		c.Sites++
+		arg := cc.Args[0]
+		c.Cut(CutSpec{Rule: "R-PROV", Fn: fn, Label: fmt.Sprintf("the PSS parameters (#%d) are built from the hash function that is returned", n), StartAfter: in, MinTargets: -1, Track: []ssa.Value{arg},
+			Target: func(i2 ssa.Instruction, res resolver) bool {
+				rt, ok := i2.(*ssa.Return)
+				if !ok || len(rt.Results) < 2 {
+					return false
+				}
+				// error returns carry no usable hash
+				if len(rt.Results) == 3 && !isNilConst(res(unspill(rt, 2))) && definitelyNonNil(res(unspill(rt, 2))) {
+					return false
+				}
+				return res(unspill(rt, 0)) != res(arg)
+			}, Cut: func(Fact) bool { return false }})
+	}
+	c.Check(n >= 1, "R-PROV", "x509.signingParamsForPublicKey", "PSS parameter constructions found", w.Pos(fn.Pos()), fmt.Sprint(n))
+}
